@@ -1,13 +1,18 @@
 // ---- prelude/sink.rs (trusted) -------------------------------------------------
-// X3: a generic `W: Write` parameter is instantiated with VSink, which models
-// exactly what the documented `Write` contract lets generic code assume about a
-// writer such as cfb::Stream:
-//   * `data`    -- every byte accepted so far (a successful write appends);
-//   * `flushed` -- how many of those bytes are known to have reached the medium:
-//                  only a successful flush() advances it to data.len();
-//   * any call may fail (Err): then nothing is promised about the sink.
-// The byteorder extension methods (write_u16::<LittleEndian> etc., turbofish
-// dropped by X3) are modelled as little-endian appends.
+// X3: a generic `W: Write` parameter becomes `W: VWrite`, a trait that states exactly what the
+// documented `Write` contract lets generic code assume about a writer such as cfb::Stream:
+//   * `bytes()`      -- every byte accepted so far (a successful write appends);
+//   * `committed()`  -- how many of those bytes are known to have reached the medium:
+//                       only a successful flush() advances it to bytes().len();
+//   * `any_failed()` -- some call on this writer has returned Err so far;
+//   * a write never UN-commits anything (committed() does not decrease) -- and for an arbitrary
+//     writer it commits nothing either; that is all generic code may assume, so a serializer can
+//     only establish committed() == bytes().len() by a successful flush() after its last write;
+//   * any call may fail (Err): then nothing is promised about the bytes.
+// Two writers implement it: VSink (an arbitrary writer: any call may fail, nothing is committed
+// before a flush) and Vec<u8> (std's `impl Write for Vec<u8>`: never fails, and what it holds
+// is all there is -- committed() == len).  The byteorder extension methods
+// (write_u16::<LittleEndian> etc., turbofish dropped by X3) are little-endian appends.
 pub struct VSink {
     pub data: Ghost<Seq<u8>>,
     pub flushed: Ghost<int>,
@@ -19,80 +24,164 @@ pub open spec fn le32(v: u32) -> Seq<u8> {
     seq![(v & 0xff) as u8, ((v >> 8) & 0xff) as u8, ((v >> 16) & 0xff) as u8, ((v >> 24) & 0xff) as u8]
 }
 
-impl VSink {
-    pub closed spec fn bytes(&self) -> Seq<u8> { self.data@ }
-    pub closed spec fn committed(&self) -> int { self.flushed@ }
-    // some call on this sink has returned Err so far ("the writer failed"): lets a serializer's
-    // contract say that an Err it returns WITHOUT a writer failure has a stated reason
-    pub closed spec fn any_failed(&self) -> bool { self.failed@ }
+pub trait VWrite: Sized {
+    spec fn bytes(&self) -> Seq<u8>;
+    spec fn committed(&self) -> int;
+    spec fn any_failed(&self) -> bool;
 
-    #[verifier::external_body]
-    pub fn write_u8(&mut self, v: u8) -> (r: std::io::Result<()>)
-        ensures r is Ok ==> final(self).bytes() == old(self).bytes() + seq![v] && final(self).committed() == old(self).committed(),
+    fn write_u8(&mut self, v: u8) -> (r: std::io::Result<()>)
+        ensures r is Ok ==> final(self).bytes() == old(self).bytes() + seq![v] && final(self).committed() >= old(self).committed(),
             r is Err ==> final(self).any_failed(),
             r is Ok ==> final(self).any_failed() == old(self).any_failed(),
-    { unimplemented!() }
+    ;
 
-    #[verifier::external_body]
-    pub fn write_u16(&mut self, v: u16) -> (r: std::io::Result<()>)
-        ensures r is Ok ==> final(self).bytes() == old(self).bytes() + le16(v) && final(self).committed() == old(self).committed(),
+    fn write_u16(&mut self, v: u16) -> (r: std::io::Result<()>)
+        ensures r is Ok ==> final(self).bytes() == old(self).bytes() + le16(v) && final(self).committed() >= old(self).committed(),
             r is Err ==> final(self).any_failed(),
             r is Ok ==> final(self).any_failed() == old(self).any_failed(),
-    { unimplemented!() }
+    ;
 
-    #[verifier::external_body]
-    pub fn write_i16(&mut self, v: i16) -> (r: std::io::Result<()>)
-        ensures r is Ok ==> final(self).bytes() == old(self).bytes() + le16(v as u16) && final(self).committed() == old(self).committed(),
+    fn write_i16(&mut self, v: i16) -> (r: std::io::Result<()>)
+        ensures r is Ok ==> final(self).bytes() == old(self).bytes() + le16(v as u16) && final(self).committed() >= old(self).committed(),
             r is Err ==> final(self).any_failed(),
             r is Ok ==> final(self).any_failed() == old(self).any_failed(),
-    { unimplemented!() }
+    ;
 
-    #[verifier::external_body]
-    pub fn write_u32(&mut self, v: u32) -> (r: std::io::Result<()>)
-        ensures r is Ok ==> final(self).bytes() == old(self).bytes() + le32(v) && final(self).committed() == old(self).committed(),
+    fn write_u32(&mut self, v: u32) -> (r: std::io::Result<()>)
+        ensures r is Ok ==> final(self).bytes() == old(self).bytes() + le32(v) && final(self).committed() >= old(self).committed(),
             r is Err ==> final(self).any_failed(),
             r is Ok ==> final(self).any_failed() == old(self).any_failed(),
-    { unimplemented!() }
+    ;
 
-    #[verifier::external_body]
-    pub fn write_i32(&mut self, v: i32) -> (r: std::io::Result<()>)
-        ensures r is Ok ==> final(self).bytes() == old(self).bytes() + le32(v as u32) && final(self).committed() == old(self).committed(),
+    fn write_i32(&mut self, v: i32) -> (r: std::io::Result<()>)
+        ensures r is Ok ==> final(self).bytes() == old(self).bytes() + le32(v as u32) && final(self).committed() >= old(self).committed(),
             r is Err ==> final(self).any_failed(),
             r is Ok ==> final(self).any_failed() == old(self).any_failed(),
-    { unimplemented!() }
+    ;
 
-    #[verifier::external_body]
-    pub fn write_i8(&mut self, v: i8) -> (r: std::io::Result<()>)
-        ensures r is Ok ==> final(self).bytes() == old(self).bytes() + seq![v as u8] && final(self).committed() == old(self).committed(),
+    fn write_i8(&mut self, v: i8) -> (r: std::io::Result<()>)
+        ensures r is Ok ==> final(self).bytes() == old(self).bytes() + seq![v as u8] && final(self).committed() >= old(self).committed(),
             r is Err ==> final(self).any_failed(),
             r is Ok ==> final(self).any_failed() == old(self).any_failed(),
-    { unimplemented!() }
+    ;
 
-    #[verifier::external_body]
-    pub fn write_u64(&mut self, v: u64) -> (r: std::io::Result<()>)
-        ensures r is Ok ==> final(self).bytes() == old(self).bytes() + le32((v & 0xffff_ffff) as u32) + le32((v >> 32) as u32) && final(self).committed() == old(self).committed(),
+    fn write_u64(&mut self, v: u64) -> (r: std::io::Result<()>)
+        ensures r is Ok ==> final(self).bytes() == old(self).bytes() + le32((v & 0xffff_ffff) as u32) + le32((v >> 32) as u32) && final(self).committed() >= old(self).committed(),
             r is Err ==> final(self).any_failed(),
             r is Ok ==> final(self).any_failed() == old(self).any_failed(),
-    { unimplemented!() }
+    ;
 
-    #[verifier::external_body]
-    pub fn write_all(&mut self, buf: &Vec<u8>) -> (r: std::io::Result<()>)
-        ensures r is Ok ==> final(self).bytes() == old(self).bytes() + buf@ && final(self).committed() == old(self).committed(),
+    fn write_all(&mut self, buf: &Vec<u8>) -> (r: std::io::Result<()>)
+        ensures r is Ok ==> final(self).bytes() == old(self).bytes() + buf@ && final(self).committed() >= old(self).committed(),
             r is Err ==> final(self).any_failed(),
             r is Ok ==> final(self).any_failed() == old(self).any_failed(),
-    { unimplemented!() }
+    ;
 
-    #[verifier::external_body]
-    pub fn write_all16(&mut self, buf: &[u8; 16]) -> (r: std::io::Result<()>)
-        ensures r is Ok ==> final(self).bytes() == old(self).bytes() + buf@ && final(self).committed() == old(self).committed(),
+    fn write_all16(&mut self, buf: &[u8; 16]) -> (r: std::io::Result<()>)
+        ensures r is Ok ==> final(self).bytes() == old(self).bytes() + buf@ && final(self).committed() >= old(self).committed(),
             r is Err ==> final(self).any_failed(),
             r is Ok ==> final(self).any_failed() == old(self).any_failed(),
-    { unimplemented!() }
+    ;
 
-    #[verifier::external_body]
-    pub fn flush(&mut self) -> (r: std::io::Result<()>)
+    fn flush(&mut self) -> (r: std::io::Result<()>)
         ensures r is Ok ==> final(self).bytes() == old(self).bytes() && final(self).committed() == final(self).bytes().len(),
             r is Err ==> final(self).any_failed(),
             r is Ok ==> final(self).any_failed() == old(self).any_failed(),
+    ;
+
+}
+
+impl VWrite for VSink {
+    closed spec fn bytes(&self) -> Seq<u8> { self.data@ }
+    closed spec fn committed(&self) -> int { self.flushed@ }
+    closed spec fn any_failed(&self) -> bool { self.failed@ }
+
+    #[verifier::external_body]
+    fn write_u8(&mut self, v: u8) -> (r: std::io::Result<()>)
     { unimplemented!() }
+
+    #[verifier::external_body]
+    fn write_u16(&mut self, v: u16) -> (r: std::io::Result<()>)
+    { unimplemented!() }
+
+    #[verifier::external_body]
+    fn write_i16(&mut self, v: i16) -> (r: std::io::Result<()>)
+    { unimplemented!() }
+
+    #[verifier::external_body]
+    fn write_u32(&mut self, v: u32) -> (r: std::io::Result<()>)
+    { unimplemented!() }
+
+    #[verifier::external_body]
+    fn write_i32(&mut self, v: i32) -> (r: std::io::Result<()>)
+    { unimplemented!() }
+
+    #[verifier::external_body]
+    fn write_i8(&mut self, v: i8) -> (r: std::io::Result<()>)
+    { unimplemented!() }
+
+    #[verifier::external_body]
+    fn write_u64(&mut self, v: u64) -> (r: std::io::Result<()>)
+    { unimplemented!() }
+
+    #[verifier::external_body]
+    fn write_all(&mut self, buf: &Vec<u8>) -> (r: std::io::Result<()>)
+    { unimplemented!() }
+
+    #[verifier::external_body]
+    fn write_all16(&mut self, buf: &[u8; 16]) -> (r: std::io::Result<()>)
+    { unimplemented!() }
+
+    #[verifier::external_body]
+    fn flush(&mut self) -> (r: std::io::Result<()>)
+    { unimplemented!() }
+
+}
+
+// std: `impl Write for Vec<u8>` appends and never fails; flush is a no-op
+impl VWrite for Vec<u8> {
+    open spec fn bytes(&self) -> Seq<u8> { self@ }
+    open spec fn committed(&self) -> int { self@.len() as int }
+    open spec fn any_failed(&self) -> bool { false }
+
+    #[verifier::external_body]
+    fn write_u8(&mut self, v: u8) -> (r: std::io::Result<()>)
+    { unimplemented!() }
+
+    #[verifier::external_body]
+    fn write_u16(&mut self, v: u16) -> (r: std::io::Result<()>)
+    { unimplemented!() }
+
+    #[verifier::external_body]
+    fn write_i16(&mut self, v: i16) -> (r: std::io::Result<()>)
+    { unimplemented!() }
+
+    #[verifier::external_body]
+    fn write_u32(&mut self, v: u32) -> (r: std::io::Result<()>)
+    { unimplemented!() }
+
+    #[verifier::external_body]
+    fn write_i32(&mut self, v: i32) -> (r: std::io::Result<()>)
+    { unimplemented!() }
+
+    #[verifier::external_body]
+    fn write_i8(&mut self, v: i8) -> (r: std::io::Result<()>)
+    { unimplemented!() }
+
+    #[verifier::external_body]
+    fn write_u64(&mut self, v: u64) -> (r: std::io::Result<()>)
+    { unimplemented!() }
+
+    #[verifier::external_body]
+    fn write_all(&mut self, buf: &Vec<u8>) -> (r: std::io::Result<()>)
+    { unimplemented!() }
+
+    #[verifier::external_body]
+    fn write_all16(&mut self, buf: &[u8; 16]) -> (r: std::io::Result<()>)
+    { unimplemented!() }
+
+    #[verifier::external_body]
+    fn flush(&mut self) -> (r: std::io::Result<()>)
+    { unimplemented!() }
+
 }
